@@ -415,8 +415,14 @@ check_for_constructor(CPPScope *current_scope, CPPScope *global_scope) {
           flags |= CPPFunctionType::F_constructor;
         }
 
+        // A copy or move constructor may have additional parameters, as long
+        // as they all have default values.
         CPPParameterList *params = func->_parameters;
-        if (params->_parameters.size() == 1 && !params->_includes_ellipsis) {
+        if (!params->_includes_ellipsis &&
+            (params->_parameters.size() == 1 ||
+             (params->_parameters.size() > 1 &&
+              method_name == class_name &&
+              params->_parameters[1]->_initializer != nullptr))) {
           CPPType *param_type = params->_parameters[0]->_type;
           CPPReferenceType *ref_type = param_type->as_reference_type();
 
